@@ -125,6 +125,30 @@ def run(case, env):
               {"pre": pre, "post": post})
         return ok("dry-run") if labels or depth > 1 else trivial()
     local = case["local"] and bool(master_path)
+    if case.get("no_tree"):
+        # uncommit on the branch alone (as for a treeless branch): nothing is
+        # re-recorded anywhere, so every revision that leaves the branch's
+        # ancestry takes its tags with it
+        b = _branch.Branch.open(path)
+        _unc.uncommit(b, tree=None, revno=revno, keep_tags=keep, local=local)
+        b = _branch.Branch.open(path)
+        newtip = lh[len(lh) - depth - 1] if depth < len(lh) else "null:"
+        rn, rt = b.last_revision_info()
+        check([rn, rt.decode()] == [len(lh) - depth, newtip],
+              "C16/depth-tip-or-revno-wrong", [tip, depth, rn, rt])
+        gone = anc - (gm.ancestry(g, newtip) if newtip != "null:" else set())
+        exp_tags = {k: v for k, v in pre["tags"].items()
+                    if keep or v not in gone}
+        got_tags = {k: v.decode() for k, v in b.tags.get_tag_dict().items()}
+        check(got_tags == exp_tags, "C16/tags-not-as-specified",
+              [tip, depth, keep, pre["tags"], got_tags, exp_tags, "no tree"])
+        check(bz.snapshot_fs(path) == pre["fs"], "C16/uncommit-modified-files",
+              None)
+        merged = [p for r in lh[len(lh) - depth:] for p in g[r][1:]]
+        if merged or len(exp_tags) < len(pre["tags"]):
+            labels.append("no-tree" + ("+tag-dropped" if len(exp_tags) <
+                                       len(pre["tags"]) else ""))
+        return ok("+".join(sorted(set(labels)))) if labels else trivial()
     wt = workingtree.WorkingTree.open(path)
     _unc.uncommit(wt.branch, tree=wt, revno=revno, keep_tags=keep, local=local)
     post = observe(path)
@@ -208,7 +232,8 @@ def cases(draw, n_max=10):
             "depth": draw(st.sampled_from(list(range(12)))),
             "keep_tags": draw(st.sampled_from([False, False, True])),
             "dry_run": draw(st.sampled_from([False] * 11 + [True])),
-            "bound": bound, "local": bound and draw(st.booleans())}
+            "bound": bound, "local": bound and draw(st.booleans()),
+            "no_tree": draw(st.sampled_from([False, False, False, True]))}
 
 
 def kinds(tier):
